@@ -36,6 +36,17 @@ func VerifActiveClusters(r resolver.Resolver) []string {
 	return read()
 }
 
+// VerifActivePlugins returns "name=refCount" of activePlugins, sorted.
+func VerifActivePlugins(r resolver.Resolver) []string {
+	xr := r.(*xdsResolver)
+	var out []string
+	for k, ci := range xr.activePlugins {
+		out = append(out, k+"="+itoa(int(ci.refCount.Load())))
+	}
+	sort.Strings(out)
+	return out
+}
+
 func itoa(n int) string {
 	if n == 0 {
 		return "0"
